@@ -40,7 +40,9 @@ NumCs(q) == CASE q = -12 -> <<"-", "3">> [] q = -6 -> <<"-", "1", ".", "5">> [] 
 
 (* the characters of the property names of the universe *)
 KeyCs(k) == CASE k = "x" -> <<"x">> [] k = "y" -> <<"y">> [] k = "o" -> <<"o">> [] k = "w" -> <<"w">>
-              [] k = "k,1" -> <<"k", ",", "1">>
+              [] k = "k,1" -> <<"k", ",", "1">> [] k = "z" -> <<"z">> [] k = "P" -> <<"P">> [] k = "p" -> <<"p">>
+(* every name that can occur as a query key or property name in the universe, in the order object keys are compared *)
+AllKeys == <<"P", "k,1", "o", "p", "w", "x", "y", "z">>
 
 (* ---- percent-encoding ---- *)
 NonAlnum == {" ", "\t", "+", "%", "&", "=", ",", "|", ".", ";", "-", "[", "]", "/"}     \* of the alphabet of the universe
@@ -148,7 +150,7 @@ PathCs(c, name, v, e) ==
 
 Pair(k, v) == [k |-> k, v |-> v]
 
-(* deepObject: p[x]=1, nested objects p[o][y]=a; br = the two brackets as written *)
+(* deepObject: p[x]=1, nested objects p[o][y]=a; br = the two brackets as written.  Pairs of cs. *)
 RECURSIVE DeepPairs(_, _, _, _)
 DeepPairs(prefix, o, e, br) ==
    IF o.k = <<>> THEN <<>>
@@ -156,20 +158,23 @@ DeepPairs(prefix, o, e, br) ==
             rest == DeepPairs(prefix, [o EXCEPT !.k = Tail(o.k), !.v = Tail(o.v)], e, br)
             key == prefix \o br[1] \o KeyE(e, k) \o br[2] IN
         (IF x.t = "obj" THEN DeepPairs(key, x, e, br)
-         ELSE <<Pair(Concat(key), Concat(PrimCs(e, x)))>>) \o rest
+         ELSE <<Pair(key, PrimCs(e, x))>>) \o rest
 
-QueryPairs(c, name, v, e, mode) ==
+(* the query pairs as character sequences (the L2 decoder model reads these) *)
+QueryPairsCs(c, name, v, e, mode) ==
    CASE c.style = "deepObject" -> DeepPairs(name, v, e, IF mode = "rawbr" THEN <<<<"[">>, <<"]">>>> ELSE <<Pct("["), Pct("]")>>)
-     [] IsPrim(v) -> <<Pair(Concat(name), Concat(PrimCs(e, v)))>>
+     [] IsPrim(v) -> <<Pair(name, PrimCs(e, v))>>
      [] v.t = "arr" ->
-          IF c.explode THEN [i \in DOMAIN v.a |-> Pair(Concat(name), Concat(PrimCs(e, v.a[i])))]
-          ELSE <<Pair(Concat(name), Concat(JoinCs(Items(e, v.a), CASE c.style = "form" -> <<",">>
-                                                                    \* the two delimiters that are not URL characters, as clients write them
-                                                                    [] c.style = "spaceDelimited" -> IF e.plus THEN <<"+">> ELSE Pct(" ")
-                                                                    [] c.style = "pipeDelimited" -> Pct("|"))))>>
+          IF c.explode THEN [i \in DOMAIN v.a |-> Pair(name, PrimCs(e, v.a[i]))]
+          ELSE <<Pair(name, JoinCs(Items(e, v.a), CASE c.style = "form" -> <<",">>
+                                                    \* the two delimiters that are not URL characters, as clients write them
+                                                    [] c.style = "spaceDelimited" -> IF e.plus THEN <<"+">> ELSE Pct(" ")
+                                                    [] c.style = "pipeDelimited" -> Pct("|")))>>
      [] v.t = "obj" ->
-          IF c.explode THEN [i \in DOMAIN v.k |-> Pair(Concat(KeyE(e, v.k[i])), Concat(PrimCs(e, v.v[i])))]
-          ELSE <<Pair(Concat(name), Concat(JoinCs(FlatKV(e, v.k, v.v), <<",">>)))>>
+          IF c.explode THEN [i \in DOMAIN v.k |-> Pair(KeyE(e, v.k[i]), PrimCs(e, v.v[i]))]
+          ELSE <<Pair(name, JoinCs(FlatKV(e, v.k, v.v), <<",">>))>>
+QueryPairs(c, name, v, e, mode) ==
+   LET ps == QueryPairsCs(c, name, v, e, mode) IN [i \in DOMAIN ps |-> Pair(Concat(ps[i].k), Concat(ps[i].v))]
 
 HeaderCs(c, v) ==
    CASE IsPrim(v) -> PrimCs(NoEnc, v)
